@@ -106,7 +106,7 @@ fn check_pure_cp(m: &mut Monitor, fam: &str, case: u64, s: &St, info: &Value) {
 
 fn pure_records(m: &mut Monitor, cfg: &Config) {
     let cases = shipped_pure_cases();
-    let nsp = cfg.tier.pick(6, 12);
+    let nsp = cfg.tier.pick(6, 40);
     par_cases(m, &cases, |m, ci, pc| {
         let Ok(eos) = pc.spec.build() else {
             return;
@@ -198,7 +198,7 @@ fn pure_records(m: &mut Monitor, cfg: &Config) {
 }
 
 fn pr_triples(m: &mut Monitor, cfg: &Config) {
-    let n = cfg.tier.pick(1500, 10_000);
+    let n = cfg.tier.pick(1500, 100_000);
     let idx: Vec<u64> = (0..n).collect();
     par_cases(m, &idx, |m, _, &i| {
         let mut rng = Rng::derive(cfg.seed, "c06-pr", i);
@@ -226,7 +226,7 @@ fn pr_triples(m: &mut Monitor, cfg: &Config) {
 
 fn mixtures(m: &mut Monitor, cfg: &Config) {
     let col = Collections::load();
-    let n = cfg.tier.pick(1200, 6000);
+    let n = cfg.tier.pick(1200, 40_000);
     let idx: Vec<u64> = (0..n).collect();
     par_cases(m, &idx, |m, _, &i| {
         let mut rng = Rng::derive(cfg.seed, "c06-mix", i);
@@ -256,7 +256,13 @@ fn mixtures(m: &mut Monitor, cfg: &Config) {
                     m.sample(json!({"model": spec.label(), "x": x, "Tc": s.temperature.to_reduced(), "lambda_min": lam, "cubic_form_scaled": c}));
                 }
                 m.check("mixture:smallest eigenvalue=0", &sig("eigenvalue"), case, lam.abs(), TOL_MIX, || info.clone());
-                m.check("mixture:cubic form=0", &sig("cubic form"), case, c.abs(), TOL_MIX, || info.clone());
+                if c.is_nan() {
+                    // the recomputation evaluates neighbouring compositions; a NaN there (SAFT-VR Mie
+                    // cross-association, finding F26 of C09) says nothing about the returned point
+                    m.skip("mixture:cubic form=0", "recomputation not finite at a neighbouring composition (unresolved)");
+                } else {
+                    m.check("mixture:cubic form=0", &sig("cubic form"), case, c.abs(), TOL_MIX, || info.clone());
+                }
                 let pcrit = s.pressure(Contributions::Total).to_reduced();
                 // positive pressure is only stated for pure substances; mixture critical points
                 // at negative pressure (liquid-liquid type) are counted, and the vapour/liquid
@@ -271,14 +277,22 @@ fn mixtures(m: &mut Monitor, cfg: &Config) {
                 if let Ok([sv, sl]) = State::spinodal(&eos, Temperature::from_reduced(t), Some(&moles), SolverOptions::default()) {
                     for sp in [&sv, &sl] {
                         if let Some((lam, _, _)) = mixture_criticality(sp) {
-                            m.check("spinodal:smallest eigenvalue=0 (mixture)", &sig("spinodal eigenvalue"), case + 1, lam.abs(), TOL_MIX, || info.clone());
+                            m.check("spinodal:smallest eigenvalue=0 (mixture)", &sig("spinodal eigenvalue"), case + 1, lam.abs(), TOL_MIX, || json!({"info": info, "T": t, "rho_spinodal": sp.density.to_reduced(), "rho_max": max_density(&eos, &x), "eigenvalue": lam}));
                         }
                     }
                     let rc = s.density.to_reduced();
                     let (rv, rl) = (sv.density.to_reduced(), sl.density.to_reduced());
                     let mode = if (rl / rv - 1.0).abs() < 1e-6 { "both branches are the vapour spinodal" } else { "other" };
                     let bucket = if t / s.temperature.to_reduced() < 0.85 { "T/Tc<0.85" } else { "T/Tc>=0.85" };
-                    m.check_bool("spinodal:brackets critical density (mixture)", &format!("spinodal bracket (mixture)|{fam}|{mode}|{bucket}"), case + 1, rv < rc && rc < rl, || json!({"model": spec, "x": x, "T": t, "rho_sp_v": rv, "rho_sp_l": rl, "rho_c": rc}));
+                    // For a mixture at fixed composition the critical point is not the top of the
+                    // spinodal curve, so both spinodal densities can lie on one side of the critical
+                    // density close to T_c: bracketing is demanded of pure substances and only counted
+                    // here. Two identical states, however, are not a pair of spinodal points.
+                    if mode == "other" {
+                        m.count(if rv < rc && rc < rl { "mixture_spinodals_bracket_critical_density" } else { "mixture_spinodals_on_one_side_of_critical_density" }, 1);
+                    } else {
+                        m.check_bool("spinodal:two distinct branches (mixture)", &format!("spinodal bracket (mixture)|{fam}|{mode}|{bucket}"), case + 1, false, || json!({"model": spec, "x": x, "T": t, "rho_sp_v": rv, "rho_sp_l": rl, "rho_c": rc}));
+                    }
                 }
             }
         } else {
